@@ -62,6 +62,16 @@ def gen(rng, tier):
             {"t": "ReducePatterns", "two_way": not first, "ignore_parent": False},
         ]
         R["pack"]["inferral"] = [x for x in R["pack"]["inferral"] if x["t"] != "ReducePatterns"]
+    elif rng.random() < 0.25 and not R["world"]["tracked"] and not R["config"]["debug"]:
+        # opposite directions: A -> A' by a one-way rule (track a letter that never occurs), later
+        # A' -> A by a two-way rule (drop the dead statistic): the stored one-way rule has to go
+        R["pack"]["initial"] = [x for x in R["pack"]["initial"] if x["t"] not in ("TrackLetter", "DropDeadStatistic")] + [
+            {"t": "TrackLetter", "letter": 3, "two_way": False, "ignore_parent": False},
+        ]
+        R["pack"]["inferral"] = [x for x in R["pack"]["inferral"] if x["t"] not in ("TrackLetter", "DropDeadStatistic")] + [
+            {"t": "DropDeadStatistic", "two_way": True},
+        ]
+        R["pack"]["ver"] = [v if v["t"] != "AtomStrategy" else {"t": "WordAtom"} for v in R["pack"]["ver"]]
     R["query_policy"] = rng.choice(["every", "subset", "end"])
     R["query_seed"] = rng.randrange(1 << 30)
     return R
@@ -126,9 +136,15 @@ class Mirrors:
 
     def compare(self, where):
         classdb = self.searcher.classdb
-        ka, kb = set(iter(self.a)), set(iter(self.b))
+        la, lb = sorted(iter(self.a)), sorted(iter(self.b))
+        ka, kb = set(la), set(lb)
         if ka != kb:
             raise Violation("C14:stored-rules-differ", f"{where}: only in RuleDB {sorted(ka - kb)[:4]}, only in forget {sorted(kb - ka)[:4]}")
+        if la != lb:
+            # iterating the database is observable too: a key stored once by one flavour and twice
+            # (in both of its stores) by the other is a difference
+            dup = [k for k in ka if la.count(k) != lb.count(k)][:4]
+            raise Violation("C14:stored-rules-differ", f"{where}: iteration yields {dup} a different number of times (RuleDB {[la.count(k) for k in dup]}, forget {[lb.count(k) for k in dup]})")
         for l in classdb:
             va, vb = self.a.is_verified(l), self.b.is_verified(l)
             if va != vb:
